@@ -102,6 +102,9 @@ def mech(kind, w, design=None):
   src = w.get("source", "")
   if kind == "emitted-text-does-not-parse-or-elaborate" and re.search(r"\d+ ' d - \d+", w.get("error", "")):
     return "negative-free-variable-emitted-as-unsigned-literal"
+  if kind == "emitted-text-does-not-parse-or-elaborate" and re.search(r"instantiated module \w+ is not defined", w.get("error", "")) \
+     and "explicit_module_name" in src:
+    return "explicit-module-name-on-one-of-two-identical-instances-leaves-a-module-undefined"
   if kind == "output-differs-from-pymtl-simulation":
     if literal_branch_ifexp_meets_int_semantics(src): return "ifexp-with-literal-branch-evaluates-to-python-int-in-simulation"
     if const_only_nonring_subexpr(src): return "const-subexpression-narrowed-before-nonring-operator"
@@ -137,6 +140,20 @@ class Top(Component):
     @update
     def up():
       s.o @= s.a if s.c else NEG
+""", "Top"),
+ "F-T8": ("""from pymtl3 import *
+from pymtl3.passes.backends.verilog import VerilogTranslationPass
+class Leaf(Component):
+  def construct(s):
+    s.in_ = InPort(8); s.out = OutPort(8)
+    s.out //= s.in_
+class Top(Component):
+  def construct(s):
+    s.in_ = InPort(8); s.o1 = OutPort(8); s.o2 = OutPort(8)
+    s.a = Leaf(); s.b = Leaf()
+    s.a.in_ //= s.in_; s.b.in_ //= s.in_
+    s.a.out //= s.o1; s.b.out //= s.o2
+    s.b.set_metadata(VerilogTranslationPass.explicit_module_name, 'MyLeaf')
 """, "Top"),
  "F-T3": ("""from pymtl3 import *
 def mk(k):
